@@ -28,6 +28,63 @@ Theorem C09_failure_at_any_offset : forall b pre k post,
 Proof. exact (fail_at_offset_is_returned decode_utf8_lossy_spec). Qed.
 Print Assumptions C09_failure_at_any_offset.
 
+(* conversely an Err is never made up: it is a failure event of the schedule
+   (T01e; before the repair of D6 read_exact turned a clean EOF after a
+   UTF-16LE line feed into UnexpectedEof) *)
+Theorem C09_error_only_from_reader : forall r k,
+  read_all_lines r = IoErr k -> In (Fail k) (sched r).
+Proof. exact (read_all_lines_err_from_reader decode_utf8_lossy_spec). Qed.
+Print Assumptions C09_error_only_from_reader.
+
+Theorem C09_read_line_error_only_from_reader : forall fuel d k,
+  read_line fuel d = IoErr k -> In (Fail k) (sched (inner d)).
+Proof. exact (read_line_err_from_reader decode_utf8_lossy_spec). Qed.
+Print Assumptions C09_read_line_error_only_from_reader.
+
+(* a reader that reports no failure: read_line / the whole decode succeed *)
+Theorem C09_faultless_read_line : forall fuel d,
+  faultless (sched (inner d)) -> (msr (inner d) < fuel)%nat ->
+  exists o d', read_line fuel d = IoDone (o, d').
+Proof. exact (read_line_faultless_done decode_utf8_lossy_spec). Qed.
+Print Assumptions C09_faultless_read_line.
+
+Theorem C09_faultless_never_fails : forall r,
+  faultless (sched r) -> exists ls, read_all_lines r = IoDone ls.
+Proof. exact (read_all_lines_faultless_done decode_utf8_lossy_spec). Qed.
+Print Assumptions C09_faultless_never_fails.
+
+(* the extra-byte read of read_line after a UTF-16LE line feed (the loop that
+   replaced read_exact), one source event at a time: a hard failure is
+   returned; Interrupted is retried; end of stream keeps the line as read; a
+   byte is taken.  Together with the theorems above (which cover this read
+   like every other one): failures there are surfaced, never swallowed. *)
+Theorem C09_extra_byte_failure_returned : forall f rs s buf k,
+  read_extra (S f) (mkReader [] rs (Fail k :: s)) buf = IoErr k.
+Proof. exact read_extra_fail. Qed.
+Print Assumptions C09_extra_byte_failure_returned.
+
+Theorem C09_extra_byte_interrupted_retried : forall f rs s buf,
+  read_extra (S f) (mkReader [] rs (Interrupted :: s)) buf = read_extra f (mkReader [] rs s) buf.
+Proof. exact read_extra_interrupted. Qed.
+Print Assumptions C09_extra_byte_interrupted_retried.
+
+Theorem C09_extra_byte_eof_keeps_line : forall f buf,
+  read_extra (S f) (mkReader [] [] []) buf = IoDone (buf, mkReader [] [] []).
+Proof. exact read_extra_eof. Qed.
+Print Assumptions C09_extra_byte_eof_keeps_line.
+
+Theorem C09_extra_byte_taken : forall f x bt rs s buf,
+  read_extra (S f) (mkReader (x :: bt) rs s) buf = IoDone (buf ++ [x], mkReader bt rs s).
+Proof. exact read_extra_byte. Qed.
+Print Assumptions C09_extra_byte_taken.
+
+(* Interrupted anywhere in the loop, for any number of them and any reader *)
+Theorem C09_extra_byte_interrupted_transparent : forall f1 f2 r1 r2 buf,
+  sim r1 r2 -> (msr r1 < f1)%nat -> (msr r2 < f2)%nat ->
+  io_rel pair_sim (read_extra f1 r1 buf) (read_extra f2 r2 buf).
+Proof. exact read_extra_sim. Qed.
+Print Assumptions C09_extra_byte_interrupted_transparent.
+
 (* neither panics, for every bytes and every schedule *)
 Theorem C09_read_never_panics : forall r, io_ok (read_all_lines r).
 Proof. exact (read_all_lines_ok decode_utf8_lossy_spec). Qed.
@@ -81,6 +138,17 @@ Example C09_nonvacuous_read :
   show (read_all_lines (mk_reader d4_bytes [Chunk 100; Chunk 1; Chunk 1; Fail Other]))
   = show (IoDone [lit "[Metadata]"; lit "Title:abc"]).
 Proof. vm_compute. repeat split. Qed.
+
+(* UTF-16LE `a` LF `b` (FF FE 61 00 0A | 00 62 00): the source fails / is
+   interrupted exactly when read_line asks for the byte after the 0x0A; and
+   the stream cut there (the former D6 input) with a failure after it *)
+Example C09_extra_byte_read_events :
+  show (read_all_lines (mk_reader [255; 254; 97; 0; 10; 0; 98; 0] [Chunk 5; Fail TimedOut; Chunk 9])) = [1; 4] /\
+  show (read_all_lines (mk_reader [255; 254; 97; 0; 10; 0; 98; 0] [Chunk 5; Interrupted; Chunk 9])) = show (IoDone [lit "a"; lit "b"]) /\
+  show (read_all_lines (mk_reader [255; 254; 97; 0; 10; 0; 98; 0] [Chunk 5; Interrupted; Interrupted; Chunk 1; Chunk 9])) = show (IoDone [lit "a"; lit "b"]) /\
+  show (read_all_lines (mk_reader [255; 254; 97; 0; 10] [Chunk 5; Interrupted; Fail Other])) = [1; 1] /\
+  show (read_all_lines (mk_reader [255; 254; 97; 0; 10] [Chunk 5])) = show (IoDone [lit "a"]).
+Proof. exact extra_byte_read_events. Qed.
 
 Example C09_nonvacuous_write :
   (* 5 bytes in two chunks; the writer takes 2, is interrupted, takes 1, then fails *)
